@@ -74,6 +74,7 @@ type SpecFunc struct {
 	rtype  typesT
 	rec    bool
 	opaque bool // uninterpreted unless a function contract says 'reveal name'
+	multi  []*UFDecl // one declaration per result leaf (uninterpreted functions with a structured result)
 }
 
 type Lemma struct {
